@@ -382,23 +382,7 @@ def cold_jobs():
 def phase_f(ctx):
     """Cold start (vmon.coldstart): the first codec calls of a fresh interpreter, two threads."""
     from .. import coldstart
-    jobs = cold_jobs()
-    n = 0
-    for ji, job in enumerate(jobs):
-        if ji % ctx.nshards != (ctx.shard - 3) % ctx.nshards:
-            continue
-        rep = coldstart.run_job(job)
-        k = coldstart.judge(ctx, 'cold-start schedules == ref', 'cold', job, rep, 'cold')
-        n += k
-        if k:
-            ctx.nontrivial(None, k)
-            ctx.extra('cold_start_schedules', k)
-            ctx.extra('cold_start_steps', rep['steps'])
-            ctx.extra('cold_start_distinct_traces', rep['distinct_traces'])
-            if ji == 0:
-                ctx.put_sample({'kind': 'cold-start', 'schedules': k, 'distinct_traces': rep['distinct_traces'],
-                                'switch_sites': rep['switch_sites'][:12]})
-    ctx.count('cases', n)
+    ctx.count('cases', coldstart.phase(ctx, cold_jobs(), 'cold-start schedules == ref'))
 
 
 def run(ctx):
@@ -429,9 +413,7 @@ def replay(ctx, case):
         return
     elif k == 'cold':
         from .. import coldstart
-        job = dict(case['job'])
-        rep = coldstart.run_job(job)
-        coldstart.judge(ctx, 'cold-start schedules == ref', 'cold', job, rep, 'cold')
+        coldstart.replay(ctx, case, 'cold-start schedules == ref')
         return
     elif k == 'ridealong':
         from ..mon import wrap
